@@ -245,17 +245,20 @@ impl LazyRaw {
         }
     }
 
-    fn clone_lazyraw(&self) -> std::result::Result<LazyRaw, Parsed> {
+    /// The clone keeps the raw text (it serializes verbatim, like the original) together with a
+    /// copy of whatever has been parsed from it so far.
+    fn clone_lazyraw(&self) -> LazyRaw {
         let parsed = self.parsed.load(Ordering::Acquire);
-        if parsed.is_null() {
-            Ok(LazyRaw {
-                raw: self.raw.clone(),
-                parsed: AtomicPtr::new(std::ptr::null_mut()),
-            })
+        let parsed = if parsed.is_null() {
+            std::ptr::null_mut()
         } else {
             // # Safety
             // the pointer is immutable here, and we can clone it
-            Err(unsafe { (*parsed).clone() })
+            Box::into_raw(Box::new(unsafe { (*parsed).clone() }))
+        };
+        LazyRaw {
+            raw: self.raw.clone(),
+            parsed: AtomicPtr::new(parsed),
         }
     }
 }
@@ -274,10 +277,7 @@ impl LazyPacked {}
 impl Clone for LazyPacked {
     fn clone(&self) -> Self {
         match self {
-            Self::Raw(raw) => match raw.clone_lazyraw() {
-                Ok(raw) => Self::Raw(raw),
-                Err(v) => Self::Parsed(v),
-            },
+            Self::Raw(raw) => Self::Raw(raw.clone_lazyraw()),
             Self::NonEscStrRaw(s) => Self::NonEscStrRaw(s.clone()),
             Self::Parsed(v) => Self::Parsed(v.clone()),
         }
